@@ -394,9 +394,10 @@ func (r *schedRun) scenario(outDir string, sc schedScenario, n, t int) {
 			}
 		}
 		r.rng.Shuffle(len(rest), func(i, j int) { rest[i], rest[j] = rest[j], rest[i] })
-		if len(singles) > limit {
+		// every single pre-emption is run (up to 250 of them): the lost updates found so far all needed just one
+		if len(singles) > 250 && len(singles) > limit {
 			r.rng.Shuffle(len(singles), func(i, j int) { singles[i], singles[j] = singles[j], singles[i] })
-			singles = singles[:limit]
+			singles = singles[:250]
 		}
 		plans = append(singles, rest[:maxInt(0, limit-len(singles))]...)
 	} else {
@@ -649,6 +650,103 @@ func runSchedDiff(outDir string, seed int64, tier string) {
 				return api, pollMax, nil
 			}}
 	}
+	// two rounds are being re-initialised: the operator finishes round A (the machine's answer to its reinit operation)
+	// while the poller handles the reinit message of round B - both rewrite the one stored value that holds all rounds
+	finishVsOtherReinit := schedScenario{name: "ProcessOperation(result of the reinit operation of round A) || poll(reinit message of round B)",
+		prepare: func(c *cluster, obs *vnode, roundA string) (func(n *vnode) error, int, error) {
+			roundB, err := c.startDKG(2)
+			if err != nil {
+				return nil, 0, err
+			}
+			c.pump(60)
+			for _, nd := range c.nodes {
+				if st := c.roundState(nd, roundB); st != "stage_signing_idle" {
+					return nil, 0, fmt.Errorf("second key generation ended in %s", st)
+				}
+			}
+			all := c.boardMessages()
+			var dumpA, dumpB []storage.Message
+			for _, m := range all {
+				if m.DkgRoundID == roundA {
+					dumpA = append(dumpA, m)
+				} else if m.DkgRoundID == roundB {
+					dumpB = append(dumpB, m)
+				}
+			}
+			obs.ldb.VerifClose()
+			obs.stg.Close()
+			matches, _ := filepath.Glob(filepath.Join(obs.dir, "state*"))
+			for _, m := range matches {
+				os.RemoveAll(m)
+			}
+			if err := c.buildNodeServices(obs); err != nil {
+				return nil, 0, err
+			}
+			if err := obs.st.inner.SaveOffset(uint64(len(all))); err != nil {
+				return nil, 0, err
+			}
+			obs.air.VerifCloseDB()
+			os.RemoveAll(filepath.Join(obs.dir, "airgapped"))
+			air, err := airgapped.NewMachine(filepath.Join(obs.dir, "airgapped"))
+			if err != nil {
+				return nil, 0, err
+			}
+			air.SetEncryptionKey([]byte("pw"))
+			if err := air.SetBaseSeed(testMnemonics[obs.idx%len(testMnemonics)]); err != nil {
+				return nil, 0, err
+			}
+			if err := air.InitKeys(); err != nil {
+				return nil, 0, err
+			}
+			air.SetResultFolder(filepath.Join(obs.dir, "results"))
+			obs.air = air
+			newKeys := map[string][]byte{}
+			for _, nd := range c.nodes {
+				newKeys[nd.name] = nd.kp.Pub
+			}
+			post := func(dump []storage.Message) error {
+				re, err := types.GenerateReDKGMessage(dump, newKeys)
+				if err != nil {
+					return err
+				}
+				payload, _ := json.Marshal(re)
+				return c.nodes[1].svc.ReInitDKG(&dto.ReInitDKGDTO{ID: re.DKGID, Payload: payload})
+			}
+			// (round A in the 0.1.4 form: its public polynomial comes from the answer only, so losing that write shows)
+			if err := post(stripPubPoly(c, dumpA)); err != nil {
+				return nil, 0, err
+			}
+			for _, nd := range c.nodes {
+				c.pollOnce(nd, 0)
+			}
+			var reinitOp *types.Operation
+			for _, op := range obs.pendingOps() {
+				if string(op.Type) == "reinit_dkg" {
+					reinitOp = op
+				}
+			}
+			if reinitOp == nil {
+				return nil, 0, fmt.Errorf("the observed node offers no reinit operation")
+			}
+			path, err := obs.air.ProcessOperation(*reinitOp, true)
+			if err != nil {
+				return nil, 0, err
+			}
+			rb, _ := os.ReadFile(path)
+			os.Remove(path)
+			var res types.Operation
+			if err := json.Unmarshal(rb, &res); err != nil {
+				return nil, 0, err
+			}
+			if string(res.Event) != string(types.OperationProcessed) {
+				return nil, 0, fmt.Errorf("the machine answered the reinit operation with event %q", res.Event)
+			}
+			if err := post(dumpB); err != nil {
+				return nil, 0, err
+			}
+			api := func(n *vnode) error { return n.svc.ProcessOperation(opToDTO(&res)) }
+			return api, 1, nil
+		}}
 	// in the middle of the key generation: the observed node submits its machine's answer to one step while the poller
 	// applies the other participants' messages of that step (its own round, the very value the answer path does not touch)
 	mkMidDKG := func(step string) schedScenario {
@@ -691,7 +789,7 @@ func runSchedDiff(outDir string, seed int64, tier string) {
 				return nil, 0, fmt.Errorf("the observed node never got a %s operation", step)
 			}}
 	}
-	scs := []schedScenario{lateAnswer, approve, reset, mkSaveOffset(true), mkSaveOffset(false), mkFinishReinit(false, false), mkFinishReinit(true, false), mkFinishReinit(true, true),
+	scs := []schedScenario{lateAnswer, approve, reset, mkSaveOffset(true), mkSaveOffset(false), mkFinishReinit(false, false), mkFinishReinit(true, false), mkFinishReinit(true, true), finishVsOtherReinit,
 		mkMidDKG("state_dkg_commits_await_confirmations"), mkMidDKG("state_dkg_deals_await_confirmations"),
 		mkMidDKG("state_dkg_responses_await_confirmations"), mkMidDKG("state_dkg_master_key_await_confirmations")}
 	for _, sc := range scs {
